@@ -29,10 +29,10 @@ META = {
                     '0.0.39 sample files: the loaders accept them)', 'attacker names are not part of the .sCAD comparison (the format has none the loader reads)'],
     'shards': {'quick': 8, 'thorough': 16},
     'quotas': {
-        'quick': {'loader:native': 500, 'loader:0.0.39-json': 200, 'loader:0.0.39-yaml': 200, 'loader:scad': 500,
+        'quick': {'loader:native': 300, 'loader:0.0.39-json': 200, 'loader:0.0.39-yaml': 200, 'loader:scad': 300,
                   'class:several-entry-points-per-asset': 50, 'class:attackers>=2': 50, 'class:subtype-link': 100,
-                  'class:dup-named-assoc-link': 50, 'class:dup-named-assoc-subtype-link': 10, 'class:negative-id': 50,
-                  'class:id-0': 100, 'class:nondefault-defense': 100, 'class:many-to-many': 10, 'scad:flipped-orientation': 100,
+                  'class:dup-named-assoc-link': 50, 'class:dup-named-assoc-subtype-link': 10, 'class:negative-id': 40,
+                  'class:id-0': 100, 'class:nondefault-defense': 100, 'class:many-to-many': 7, 'scad:flipped-orientation': 100,
                   'legacy:nested-association': 100, 'legacy:inline-association': 100},
         'thorough': {'loader:native': 30000, 'loader:scad': 30000, 'class:dup-named-assoc-subtype-link': 500},
     },
